@@ -221,7 +221,7 @@ fn inc_r7(r: u8) -> u8 {
 }
 
 /// The property's predicates on one boundary of the real code. Returns (name, detail) of the first broken one.
-fn predicates(label: &str, pre: &St, s: &Step, post: &St, evs: &[String]) -> Option<(&'static str, String)> {
+fn predicates(label: &str, reachable: bool, pre: &St, s: &Step, post: &St, evs: &[String]) -> Option<(&'static str, String)> {
     let a = acceptance(evs);
     let iff1 = pre.ff & FF_IFF1 != 0;
     let skip = pre.ff & FF_SKIP != 0;
@@ -233,6 +233,14 @@ fn predicates(label: &str, pre: &St, s: &Step, post: &St, evs: &[String]) -> Opt
         return Some((
             "no-accept-after-ei-di-or-inside-prefix-chain",
             format!("{} accepted although the previous step was EI/DI or a DD/FD prefix (pending prefix {})", if a.int { "INT" } else { "NMI" }, pre.ap),
+        ));
+    }
+    if reachable && pre.ap != 0 && (a.int || a.nmi) {
+        // `reachable`: the pre-state was produced by running emulate (or satisfies the invariant
+        // "pending prefix implies skip_interrupt"), not injected through the hooks
+        return Some((
+            "no-accept-inside-prefix-chain",
+            format!("{} accepted between a prefix (pending {}) and its opcode", if a.int { "INT" } else { "NMI" }, pre.ap),
         ));
     }
     if a.int || a.nmi {
@@ -323,7 +331,8 @@ fn run_cases(model: &mut Model, rep: &mut Report, cases: &[Case], hist: &str) {
             rep.count(hist, kind);
             let t: u64 = evs.iter().map(|e| ev_tstates(e)).sum();
             rep.class(format!("{} ff={:x} ap={} lines={} -> {} T={}", label, pre.ff, pre.ap, c.steps[i].lines, kind, t));
-            if let Some((name, detail)) = predicates(label, pre, &c.steps[i], post, evs) {
+            let reachable = i > 0 || c.st.ap == 0 || c.st.ff & FF_SKIP != 0;
+            if let Some((name, detail)) = predicates(label, reachable, pre, &c.steps[i], post, evs) {
                 let mut cut = c.clone();
                 cut.steps.truncate(i + 1);
                 pred_failures.push((name.to_string(), format!("{} (step {}: {})", detail, i, label), cut.text()));
